@@ -101,13 +101,13 @@ class CfgInterp:
                         env[name] = frozenset(self.ev(init, env))
                     except Unknown:
                         env[name] = None
-        elif k == "assign" and n.get("op", "=") == "=":
-            lhs = f.deref(n["c"][0])
+        elif (k == "assign" and n.get("op", "=") == "=") or (k == "ocall" and n.get("op") == "=" and len(n.get("c", ())) >= 2):
+            lhs = f.deref(n["c"][-2])
             if lhs is not None and lhs["k"] == "ref":
                 name = f.text(lhs).strip()
                 if name in env:
                     try:
-                        env[name] = frozenset(self.ev(n["c"][1], env))
+                        env[name] = frozenset(self.ev(n["c"][-1], env))
                     except Unknown:
                         env[name] = None
         if self.on_elem is not None:
